@@ -156,7 +156,7 @@ pub fn run(args: &Args) {
     );
     report.assumption("relay's graphql_syntax::parse_executable is a logged second opinion only");
     let ex = exclusions(&report);
-    driver::run_single(args, &report, 4000, 120_000, &ex, &oracle);
+    driver::run_single(args, &report, 24_000, 240_000, &ex, &oracle);
     report.finish();
 }
 
